@@ -183,11 +183,14 @@ def bidirectional(net):
     set_user_pf_options(net, hyd_flag=False)
     if not get_net_option(net, "reuse_internal_data") or "_internal_data" not in net:
         net["_internal_data"] = dict()
-    solver_vars = ['mdot', 'p', 'TOUT', 'T']
+    # the unknowns in the order in which solve_bidirectional returns them (hydraulic stage incl. the
+    # slack mass flows, then the thermal stage)
+    solver_vars = ['mdot', 'p', 'mdotslack', 'TOUT', 'T']
     tol_m, tol_p, tol_temp = get_net_options(net, 'tol_m', 'tol_p', 'tol_T')
     newton_raphson(
-        net, solve_bidirectional, 'bidirectional', solver_vars, [tol_m, tol_p, tol_temp, tol_temp],
-        ['branch', 'node', 'branch', 'node'], 'max_iter_bidirect'
+        net, solve_bidirectional, 'bidirectional', solver_vars,
+        [tol_m, tol_p, tol_m, tol_temp, tol_temp],
+        ['branch', 'node', 'node', 'branch', 'node'], 'max_iter_bidirect'
     )
     if net.converged:
         set_user_pf_options(net, hyd_flag=True)
